@@ -34,6 +34,18 @@ def nodes_x(mesh, x: float, tol: float = 1e-8):
     return used[np.abs(X[used, 0] - x) < tol]
 
 
+def _wf_K1(u, v):
+    return u.grad.dot(v.grad)
+
+
+def _wf_M1(u, v):
+    return u.dot(v)
+
+
+def _wf_F1(v):
+    return 1.0 * v
+
+
 def make(kind: str, rng, dim: int = 2, et: str | None = None, bc: bool = True, **kw):
     """Returns (simu, info). The simulation carries Dirichlet conditions making it solvable
     (clamped at x=0, prescribed displacement / temperature at x=Lx)."""
@@ -77,18 +89,8 @@ def make(kind: str, rng, dim: int = 2, et: str | None = None, bc: bool = True, *
             dof_n = kw.get("dof_n", 1)
             field = Field(mesh.groupElem, dof_n)
             if dof_n == 1:
-                @BiLinearForm
-                def computeK(u, v):
-                    return u.grad.dot(v.grad)
-
-                @BiLinearForm
-                def computeM(u, v):
-                    return u.dot(v)
-
-                @LinearForm
-                def computeF(v):
-                    return 1.0 * v
-                wf = Models.WeakForms(field, computeK, computeC=computeM, computeM=computeM, computeF=computeF)
+                # module-level forms: a simulation whose forms are local functions cannot be pickled (Save)
+                wf = Models.WeakForms(field, BiLinearForm(_wf_K1), computeC=BiLinearForm(_wf_M1), computeM=BiLinearForm(_wf_M1), computeF=LinearForm(_wf_F1))
                 simu = Simulations.WeakForms(mesh, wf)
                 simu.add_dirichlet(n0, [0], ["u"])
             else:
